@@ -1,13 +1,29 @@
-(* C17 - the finite sweep on the REGENERATED programs (Gen/Subproc.v), kept in its own file so
-   that `make` re-runs it exactly when the translator output changes.
+(* C17 - the finite sweeps, kept in their own file so that `make` re-runs them exactly when the
+   translator output changes.
 
    For each of the finitely many callee behaviours the interpreter can tell apart
    (SubprocReach.all_behs_complete / lstep_ext) the candidate reachable set is closed under
    every step (so it contains every state reachable under ANY schedule: closed_sound) and all
    its members satisfy the state facts, all its transitions the measure fact, of
-   Proofs/SubprocLocal.v.  The domain genuinely is finite; the bound is `all_behs` itself.  *)
-From Coq Require Import List Bool.
-From PV Require Import Model.Subproc Proofs.SubprocReach Proofs.SubprocLocal Gen.Subproc.
+   Proofs/SubprocLocal.v.  The domain genuinely is finite; the bound is `all_behs` itself.
 
-Lemma programs_check : check_all Gen.Subproc.parent_prog Gen.Subproc.child_prog = true.
+   `programs_check`: the REGENERATED programs (Gen/Subproc.v), non-strict facts (where unpickling
+   in the parent raises, only the outcome is demanded).
+   `protected_strict`: a reference parent program - the current one with join()/rx.close() moved
+   into a `finally` of the recv try statement - satisfies the STRICT facts: nothing is left
+   behind on any exit path, also when unpickling raises.                                       *)
+From Coq Require Import List Bool.
+From PV Require Import Base.Exn Model.PipeKernel Model.Subproc Proofs.SubprocReach Proofs.SubprocLocal Gen.Subproc.
+Import ListNotations.
+
+Lemma programs_check : check_all Gen.Subproc.parent_prog Gen.Subproc.child_prog false = true.
+Proof. vm_cast_no_check (@eq_refl bool true). Qed.
+
+Definition protected_parent_prog : list pop :=
+  [ PRequirePipe; PPipe; PMkProcess; PStart; PCloseTx; PNewEvent; PGetLoop; PAddReader; PIfNotPollWait;
+    PRemoveReader; PClearEvent;
+    PRecvDefer [([EOFErrorC; OSErrorC], PASetChildProcessError)]; PJoin; PCloseRx; PReraise;
+    PRaiseIfError; PReturn ].
+
+Lemma protected_strict : check_all protected_parent_prog Gen.Subproc.child_prog true = true.
 Proof. vm_cast_no_check (@eq_refl bool true). Qed.
